@@ -62,7 +62,7 @@ CHECKS.update({
 CHECKS.update({
     "C15": ("exploration",
             "structured request generation (RPC x field x boundary/pathological value, mixed valid/invalid streams) through the real server binary; stamp-based reference model of 'exactly the accepted items applied'",
-            "Generated RPC sequences (auth on/off x cosine/euclidean) over 15 request kinds: Insert / BulkInsert / BulkLoadHnsw items with vector classes {valid, empty, short, long, 4097 lanes, NaN, +Inf, -Inf, zero, -0.0, overflowing norm, denormal} x id classes {1..6, 0, u32::MAX, above u32::MAX, u64::MAX} x metadata classes {plain, empty key, reserved keys, 100 KB value, 2000 keys}; a 10,001-item BulkInsert; UpdateMetadata, Delete, BatchDelete (ids incl. 10,006-id list and allowed lists of 511-9,990 ids with the generated ids at the end, malformed / 3000-deep / 40,000-wide / empty filters, no criteria), Query, BulkQuery, Search and BulkSearch with k in {0,1,3,10,1000,1001,u32::MAX}, ef_search in {0,1,16,200,10000,10001,u32::MAX}, non-finite min_score, 10 KB namespace; flushes, SIGTERM and SIGKILL restarts. Every write carries a unique stamp; after every request: an answer arrived, MUST-REFUSE classes were refused (status or failed item), VALID ones accepted, BulkQuery census == model of accepted items only, Health and a canary Search still OK, and across every READ request (valid or not, incl. bursts of 3-8 identical searches) the canary's answer is unchanged; after the final restart the census is unchanged.",
+            "Generated RPC sequences (auth on/off x cosine/euclidean) over 15 request kinds: Insert / BulkInsert / BulkLoadHnsw items with vector classes {valid, empty, short, long, 4097 lanes, NaN, +Inf, -Inf, zero, -0.0, overflowing norm, denormal} x id classes {1..6, 0, u32::MAX, above u32::MAX, u64::MAX} x metadata classes {plain, empty key, reserved keys, 100 KB value, 2000 keys}; a 10,001-item BulkInsert; UpdateMetadata, Delete, BatchDelete (ids incl. 10,006-id list and allowed lists of 511-9,990 ids with the generated ids at the end, malformed / 3000-deep / 40,000-wide / empty filters, no criteria), Query, BulkQuery, Search and BulkSearch with k in {0,1,3,10,1000,1001,u32::MAX}, ef_search in {0,1,16,200,10000,10001,u32::MAX}, non-finite min_score, 10 KB namespace; flushes, SIGTERM and SIGKILL restarts. Every write carries a unique stamp; after every request: an answer arrived, MUST-REFUSE classes were refused (status or failed item), VALID ones accepted, BulkQuery census == model of accepted items only, Health and a canary Search still OK, and across every READ request (valid or not, incl. bursts of 3-8 identical searches) the canary's answer is unchanged; after every burst each live document is looked up by Query (the point-lookup path sits behind circuit breakers that the BulkQuery census bypasses) and must be found with its stamp; after the final restart the census is unchanged.",
             "EITHER-class inputs (zero / -0.0 / overflowing-norm / denormal vectors, odd metadata, malformed filters, non-finite min_score, ids above u32::MAX without auth) may be accepted or refused; only agreement between the answer and the effect is judged for them. 'Unanswered' = DEADLINE_EXCEEDED after 20 s, UNAVAILABLE, CANCELLED or UNKNOWN.",
             "DESIGN.md §3 C15"),
 })
